@@ -447,8 +447,10 @@ spif_bool_t
 spif_str_clear(spif_str_t self, spif_char_t c)
 {
     ASSERT_RVAL(!SPIF_STR_ISNULL(self), FALSE);
-    memset(self->s, c, self->size);
-    self->s[self->len] = 0;
+    if (self->s) {
+        memset(self->s, c, self->size);
+        self->s[self->len] = 0;
+    }
     return TRUE;
 }
 
@@ -478,7 +480,7 @@ spif_str_downcase(spif_str_t self)
     spif_charptr_t tmp;
 
     ASSERT_RVAL(!SPIF_STR_ISNULL(self), FALSE);
-    for (tmp = self->s; *tmp; tmp++) {
+    for (tmp = self->s; tmp && *tmp; tmp++) {
         *tmp = tolower(*tmp);
     }
     return TRUE;
@@ -839,6 +841,10 @@ spif_str_trim(spif_str_t self)
     spif_charptr_t start, end;
 
     ASSERT_RVAL(!SPIF_STR_ISNULL(self), FALSE);
+    if (!self->s) {
+        /* Still empty; nothing to trim. */
+        return TRUE;
+    }
     start = self->s;
     end = self->s + self->len - 1;
     for (; isspace((spif_uchar_t) (*start)) && (start < end); start++);
@@ -860,7 +866,7 @@ spif_str_upcase(spif_str_t self)
     spif_charptr_t tmp;
 
     ASSERT_RVAL(!SPIF_STR_ISNULL(self), FALSE);
-    for (tmp = self->s; *tmp; tmp++) {
+    for (tmp = self->s; tmp && *tmp; tmp++) {
         *tmp = toupper(*tmp);
     }
     return TRUE;
